@@ -364,6 +364,21 @@ def _terminal_ok(ctx, p, fn, ob, cont, idx, gqs):
             if len(terms) != 1 or set(tmap.keys()) != {'0'}:
                 continue
             c = next(iter(terms))
+            if c[0] == 'index' and c[2] == cur and P.goal_mask_info(ctx, p, c[1]) == cont:
+                # `is_goal[cur]` with is_goal[i] = goal.is_satisfied(CONT[i].state) for every milestone
+                if inner0 is None:
+                    if P.guarded(fn, ob, {(sb, other)}):
+                        return True, ''
+                    continue
+                some_blocks = []
+                for li in range(len(fn.b.locals)):
+                    if not fn.b.local_ty(li).startswith('std::option::Option<usize>') or fn.local_terms(li, (ob, 0)) != inner0:
+                        continue
+                    lits, _oth = P.find_literals(fn, {'copy': {'l': li, 'p': []}}, (ob, 0), lambda rv: rv.get('variant_name') in ('Some', 'None'))
+                    some_blocks += [lb for (lb, _lidx, lst) in lits if lst['rv']['variant_name'] == 'Some']
+                if some_blocks and all(P.guarded(fn, sbk, {(sb, other)}) for sbk in some_blocks):
+                    return True, ''
+                continue
             if c[0] == 'call' and c[1].endswith('::contains') and len(c[2]) == 2 and c[2][1] == cur:
                 cr = P.list_creations(c[2][0])
                 if not cr:
